@@ -23,6 +23,7 @@
 -/
 import Lean.Data.Json
 import Yabgp.Model.Mp.MpUnreach
+import Yabgp.Model.Construct.Guards
 
 namespace Yabgp.MpGlue
 open Lean (Json)
@@ -218,8 +219,8 @@ def dispatchMp (st : MpDState) (j : Json) : Except String (MpDState × Json) := 
       else pure (st, rJson unreachJson (parseMpUnreach ap b))
   | "mp.construct" => do
       let v ← j.getObjVal? "value"
-      if (← getNat j "attr") = 14 then pure (st, cresJson (constructMpReach (← readReach v)))
-      else pure (st, cresJson (constructMpUnreach (← readUnreach v)))
+      if (← getNat j "attr") = 14 then pure (st, cresJson (constructMpReachR (← readReach v)))
+      else pure (st, cresJson (constructMpUnreachR (← readUnreach v)))
   | "mp.nlri.parse" => do
       let b ← getHex j "hex"
       let ap := getBoolD j "addpath" false
@@ -238,12 +239,12 @@ def dispatchMp (st : MpDState) (j : Json) : Except String (MpDState × Json) := 
       | "u6" => pure (st, optHexJson (constructU6 (← rs.mapM readU6)))
       | "lu4" => do
           let rs ← rs.mapM (readLu (!wd))
-          pure (st, optHexJson (if wd then constructLuWithdraw .inet rs else constructLu .inet rs))
+          pure (st, optHexJson (if wd then constructLuWithdrawR .inet rs else constructLuR .inet rs))
       | "lu6" => do
           let rs ← rs.mapM (readLu (!wd))
-          pure (st, optHexJson (if wd then constructLuWithdraw .inet6 rs else constructLu .inet6 rs))
-      | "vpn4" => pure (st, optHexJson (constructVpn .inet wd (← rs.mapM (readVpn (!wd)))))
-      | "vpn6" => pure (st, optHexJson (constructVpn .inet6 wd (← rs.mapM (readVpn (!wd)))))
+          pure (st, optHexJson (if wd then constructLuWithdrawR .inet6 rs else constructLuR .inet6 rs))
+      | "vpn4" => pure (st, optHexJson (constructVpnR .inet wd (← rs.mapM (readVpn (!wd)))))
+      | "vpn6" => pure (st, optHexJson (constructVpnR .inet6 wd (← rs.mapM (readVpn (!wd)))))
       | f => throw s!"unknown family {f}"
   | "mp.rd.parse" => do
       pure (st, match parseRd (← getHex j "hex") with
